@@ -31,7 +31,7 @@ use rustc_middle::mir::{
     AggregateKind, AssertKind, Body, Const, Operand, Place, ProjectionElem, Rvalue,
     StatementKind, TerminatorKind,
 };
-use rustc_middle::ty::print::with_no_trimmed_paths;
+use rustc_middle::ty::print::{with_no_trimmed_paths, with_no_visible_paths};
 use rustc_middle::ty::{self, Instance, Ty, TyCtxt, TypingEnv};
 use rustc_span::Span;
 
@@ -93,11 +93,11 @@ fn is_focus(path: &str) -> bool {
 }
 
 fn dpath(tcx: TyCtxt<'_>, d: DefId) -> String {
-    with_no_trimmed_paths!(tcx.def_path_str(d))
+    with_no_visible_paths!(with_no_trimmed_paths!(tcx.def_path_str(d)))
 }
 
 fn ty_str<'tcx>(ty: Ty<'tcx>) -> String {
-    trunc(with_no_trimmed_paths!(format!("{}", ty)), 240)
+    trunc(with_no_visible_paths!(with_no_trimmed_paths!(format!("{}", ty))), 240)
 }
 
 struct Cx<'a, 'tcx> {
@@ -136,7 +136,7 @@ impl<'a, 'tcx> Cx<'a, 'tcx> {
                 if let Some(ld) = did.as_local() {
                     let caps = tcx.closure_captures(ld);
                     if let Some(c) = caps.get(f.as_usize()) {
-                        name = with_no_trimmed_paths!(c.to_string(tcx));
+                        name = with_no_visible_paths!(with_no_trimmed_paths!(c.to_string(tcx)));
                     }
                 }
                 format!("{}:^", name)
@@ -183,7 +183,7 @@ impl<'a, 'tcx> Cx<'a, 'tcx> {
             ty::FnDef(did, args) => {
                 let mut s = format!("{{\"fn\":{}", esc(&dpath(tcx, *did)));
                 if !args.is_empty() {
-                    let fa = with_no_trimmed_paths!(tcx.def_path_str_with_args(*did, args));
+                    let fa = with_no_visible_paths!(with_no_trimmed_paths!(tcx.def_path_str_with_args(*did, args)));
                     let _ = write!(s, ",\"fa\":{}", esc(&trunc(fa, 300)));
                 }
                 s.push('}');
@@ -338,7 +338,7 @@ impl<'a, 'tcx> Cx<'a, 'tcx> {
                     let path = dpath(tcx, *did);
                     let mut s = format!("\"f\":{}", esc(&path));
                     if !args.is_empty() {
-                        let fa = with_no_trimmed_paths!(tcx.def_path_str_with_args(*did, args));
+                        let fa = with_no_visible_paths!(with_no_trimmed_paths!(tcx.def_path_str_with_args(*did, args)));
                         let _ = write!(s, ",\"fa\":{}", esc(&trunc(fa, 400)));
                     }
                     let mut primary = path.clone();
@@ -918,6 +918,9 @@ fn main() {
                 }
             }
             *FOCUS.lock().unwrap() = Some((inc, exc));
+        }
+        if let Ok(t) = std::env::var("RSM_FACTS_THREADS") {
+            args.push(format!("-Zthreads={}", t));
         }
         rustc_driver::run_compiler(&args, &mut Cb);
     } else {
